@@ -9,6 +9,38 @@ type PropSpec struct {
 }
 
 var properties = map[string]PropSpec{
+	"C13": {
+		Level: "other",
+		Explanation: "wip",
+		Run: func(c *Ctx) {
+			c.ttCanPushNester()
+			c.ttGetter("Stack.CanNest", "nnest", false)
+			c.ttGetter("Condition.CanNest", "nnest", false)
+			c.ttCondExprHandler()
+			c.rulePushLoops()
+			c.ruleOptionWritesOnlyOpt()
+		},
+	},
+	"C18": {
+		Level: "other",
+		Explanation: "wip",
+		Run: func(c *Ctx) {
+			c.ruleFlagsDistinct()
+			c.ruleMask()
+			c.ttSetState()
+			for _, t := range []string{"Stack", "Condition"} {
+				c.ttGetter(t+".IsParen", "parens", true)
+				c.ttGetter(t+".IsPadded", "nspad", false)
+				c.ttGetter(t+".IsReadOnly", "ronly", true)
+				c.ttGetter(t+".CanNest", "nnest", false)
+			}
+			c.ruleSwitchTable()
+			c.ruleLatch()
+			c.rulePair()
+			c.ruleSettingsGuards()
+			c.ruleLogLevels()
+		},
+	},
 	"C17": {
 		Level: "other",
 		Explanation: "wip",
